@@ -70,7 +70,7 @@ pub enum Kind {
 }
 
 impl Kind {
-    fn name(self) -> &'static str {
+    pub fn name(self) -> &'static str {
         match self {
             Kind::TokioCurrent => "tokio-current-thread",
             Kind::TokioMulti => "tokio-multi-thread",
